@@ -69,12 +69,20 @@ class SourceModule(Object):
         except AttributeError:
             pass
 
+        request = self.project.__dict__.get('_request')
+        kept = self.__dict__.get('_ring_scope')
+        if kept is not None and kept[0] == request:
+            return kept[1]  # type: ignore[no-any-return]
+
         source = Source(open(self.filename).read(), self.filename)
         scope = extract_scope(source, self.project)
         if self._partial:
             # analysed inside an import cycle, on top of a module that had
-            # nothing to offer yet: good for this once, not to be kept
+            # nothing to offer yet: good for the request that entered the
+            # cycle here (which must not analyse it over and over), not to be
+            # kept for the next one
             self._partial = False
+            self._ring_scope = (request, scope)
         else:
             self._scope = scope
         return scope
